@@ -23,6 +23,8 @@ CANARIES = {
                                     "self._update_path_to_root(node)", "pass"),
     "copy_shares_node_payloads": ("phyclone.tree.tree", "Tree.copy",
                                   "new._graph[node_idx] = new._graph[node_idx].copy()", "pass"),
+    "remove_dp_first_sample_only": ("phyclone.tree.tree_node", "TreeNode.remove_data_point", "self.log_p -= data_point.value",
+                                    "self.log_p[0] -= data_point.value[0]"),
     "remove_dp_forgets_log_r": ("phyclone.tree.tree_node", "TreeNode.add_data_point", "self.log_r += data_point.value", "pass"),
 }
 
@@ -52,11 +54,22 @@ def jobs(tier, seed, prop="C06"):
                 out.append({"name": f"n4-L2-{f.describe()}", "blocks": f.blocks, "parent": f.parent, "outliers": f.outliers, "n": 4, "L": 2,
                             "total": 4, "G": 2, "cost": 30})
     if prop == "C06":
+        # two samples (a 2 x G grid per data point): the per-sample rows of every cached vector are maintained independently
+        for f in all_forests(2, outliers=True):
+            out.append({"name": f"D2-n2-L2-{f.describe()}", "blocks": f.blocks, "parent": f.parent, "outliers": f.outliers, "n": 2, "L": 2,
+                        "total": 3, "G": 2, "D": 2, "cost": 40})
+        if tier != "quick":
+            for f in all_forests(3, outliers=False):
+                out.append({"name": f"D2-n3-L2-{f.describe()}", "blocks": f.blocks, "parent": f.parent, "outliers": f.outliers, "n": 3, "L": 2,
+                            "total": 4, "G": 2, "D": 2, "cost": 80})
         chain = Forest([[0], [1], [2]], [None, 0, 1], [])
         cherry = Forest([[0, 1], [2]], [None, 0], [])
         for cname, f in (("remove_dp_skips_path_update", cherry), ("copy_shares_node_payloads", cherry), ("remove_dp_forgets_log_r", cherry)):
             out.append({"name": f"canary-{cname}", "canary": cname, "blocks": f.blocks, "parent": f.parent, "outliers": [], "n": 3, "L": 2,
                         "total": 4, "G": 2, "cost": 50})
+        # invisible with one sample, so it runs on a two-sample job
+        out.append({"name": "canary-remove_dp_first_sample_only", "canary": "remove_dp_first_sample_only", "blocks": cherry.blocks,
+                    "parent": cherry.parent, "outliers": [], "n": 3, "L": 2, "total": 4, "G": 2, "D": 2, "cost": 80})
     return out
 
 
@@ -93,7 +106,7 @@ def compare(tree, forest, dps, td, grid, sym=True):
 def run_history(job, dps, td, choose):
     """Execute one history; `choose(n)` picks the next edit.  Returns (steps, live list incl. final tree)."""
     forest = _fj(job)
-    grid = (1, job["G"])
+    grid = (job.get("D", 1), job["G"])
     tree = forest.to_tree(dps, grid)
     spares = list(range(job["n"], job["total"]))
     live = []
@@ -117,7 +130,8 @@ def work(job, structural_only=False):
     CTX.sentinel_mode = "assume"
     G = job["G"]
     total = job["total"]
-    dps = [sym_dp(i, 1, G) for i in range(total)]
+    D = job.get("D", 1)
+    dps = [sym_dp(i, D, G) for i in range(total)]
     td = TreeJointDistribution(FSCRPDistribution(Lin(V.var("alpha"))))
     sample = {}
 
@@ -147,7 +161,7 @@ def work(job, structural_only=False):
                     continue
                 res["obligations"] += 1
                 mism = None
-                for what, x, y in compare(tree, forest, dps, td, (1, G)):
+                for what, x, y in compare(tree, forest, dps, td, (D, G)):
                     if what == "shape":
                         mism = (what, None)
                         break
@@ -177,7 +191,7 @@ def work(job, structural_only=False):
     res["twin_ok"] = res["histories"] > 0
     res["status"] = "cex" if res["cex"] else "ok"
     for c in res["cex"]:
-        c.update({"job": {k: job[k] for k in ("blocks", "parent", "outliers", "n", "L", "total", "G")},
+        c.update({"job": {k: job[k] for k in ("blocks", "parent", "outliers", "n", "L", "total", "G", "D") if k in job},
                   "finding_key": f"{job.get('prop', 'C06')}:{c['kind']}"})
     res["cex"] = res["cex"][:2]
     res["sample"] = sample or {"start": _fj(job).describe(), "histories": res["histories"]}
@@ -188,7 +202,7 @@ def replay(case, structural_only=False):
     from phyclone.tree import FSCRPDistribution, TreeJointDistribution
     job = case["job"]
     vals = case.get("values", {})
-    dps = [float_dp(i, 1, job["G"], vals) for i in range(job["total"])]
+    dps = [float_dp(i, job.get("D", 1), job["G"], vals) for i in range(job["total"])]
     td = TreeJointDistribution(FSCRPDistribution(float(Fraction(vals.get("alpha", "7/10")))))
     it = iter(case["trace"])
     try:
@@ -202,7 +216,7 @@ def replay(case, structural_only=False):
             return True, {"malformed": probs[:3], "steps": steps}
         if structural_only:
             continue
-        for what, x, y in compare(tree, forest, dps, td, (1, job["G"])):
+        for what, x, y in compare(tree, forest, dps, td, (job.get("D", 1), job["G"])):
             if what == "shape":
                 return True, {"shape": True, "steps": steps}
             worst = max(worst, abs(float(x) - float(y)))
@@ -222,7 +236,7 @@ def evidence(tier, seed, results, canaries):
                            "node's log_p/log_r entry and of both joint densities for all positive data and alpha.",
             "functions_encoded": funcs,
             "bounds": {"quick": "start forests on 1-2 points (every outlier subset) with histories <= 3 edits, on 3 points (<= 1 outlier) with <= 2 edits; up to 4 data points in total",
-                       "thorough": "<= 4 edits from 1 point, <= 3 from 2-3 points (two spare points at n=2), <= 2 from 4 points incl. one outlier", "grid": 2, "samples": 1,
+                       "thorough": "<= 4 edits from 1 point, <= 3 from 2-3 points (two spare points at n=2), <= 2 from 4 points incl. one outlier", "grid": 2, "samples": "1; 2 samples for histories of <= 2 edits from every start forest on 2 points (thorough: also 3 points without outliers)",
                        "grammar": "add new point to top-level clone / new clone above any subset of top-level clones / new outlier / move a point between clones and outliers (copy-edit) / prune-regraft with all candidates built from one subtree object / subtree round trip through dict form / relabel / copy / dict round trip"},
             "outside_bounds": ["longer histories", "rounding drift (real arithmetic)", "grids > 2"],
             "obligations": obligations, "discharged": discharged,
